@@ -55,6 +55,11 @@ def run(repo_dir, harnesses, jobs=8, harness_timeout=600, extra_flags=(), cbmc_a
         cmd += ["--cbmc-args"] + list(cbmc_args)
     env = dict(os.environ)
     env.update(KANI_ENV)
+    # temporary files of the tool chain (the CNF handed to the external SAT solver can be > 1 GB and is left behind when a harness
+    # is killed at its timeout) live inside the scratch directory and are removed with it
+    _tmp = os.path.join(os.path.dirname(os.path.abspath(repo_dir)), "tmp")
+    os.makedirs(_tmp, exist_ok=True)
+    env["TMPDIR"] = _tmp
     t0 = time.time()
     with open(log_file, "w") as lf:
         try:
@@ -130,6 +135,11 @@ def playback(repo_dir, rel_file, mod_name, harness, extra_flags=(), cbmc_args=()
         cmd += ["--cbmc-args"] + list(cbmc_args)
     env = dict(os.environ)
     env.update(KANI_ENV)
+    # temporary files of the tool chain (the CNF handed to the external SAT solver can be > 1 GB and is left behind when a harness
+    # is killed at its timeout) live inside the scratch directory and are removed with it
+    _tmp = os.path.join(os.path.dirname(os.path.abspath(repo_dir)), "tmp")
+    os.makedirs(_tmp, exist_ok=True)
+    env["TMPDIR"] = _tmp
     try:
         p = subprocess.run(cmd, cwd=repo_dir, env=env, stdout=subprocess.PIPE, stderr=subprocess.STDOUT,
                            timeout=timeout, text=True, errors="replace")
